@@ -293,13 +293,22 @@ impl Walrus {
             debug_print!("[recovery] file {}", file_path);
 
             let mut block_offset: u64 = 0;
-            while block_offset + DEFAULT_BLOCK_SIZE <= MAX_FILE_SIZE {
-                // heuristic: if first bytes are zero, assume no more blocks
+            let scan_end = MAX_FILE_SIZE.min(mmap.len() as u64);
+            // zeroed units passed since the last block; they take ids only once a later block
+            // shows that they had been allocated
+            let mut zeroed_units: usize = 0;
+            while block_offset + DEFAULT_BLOCK_SIZE <= scan_end {
+                // a block that was allocated but never received an entry (rejected first append,
+                // rolled-back batch) is all zero, like the unallocated rest of the file: keep looking
                 let mut probe = [0u8; 8];
                 mmap.read(block_offset as usize, &mut probe);
                 if probe.iter().all(|&b| b == 0) {
-                    break;
+                    zeroed_units += 1;
+                    block_offset += DEFAULT_BLOCK_SIZE;
+                    continue;
                 }
+                next_block_id += zeroed_units;
+                zeroed_units = 0;
 
                 let mut used: u64 = 0;
                 let mut entries_in_block: u64 = 0;
